@@ -731,7 +731,8 @@ def ser_part(seed, budget):
             base = out(lambda: serialize(tp, v0, no_copy=False, check_type=False, **so))
             if base[0] != "ok": continue
             v = v0
-            if "abstract-collection" in t.features() and not ({"union", "optional"} & t.features()):
+            # (under exclude_defaults a tuple is not the list default it stands for: `() == []` is False, the comparison would be between two values)
+            if "abstract-collection" in t.features() and not ({"union", "optional"} & t.features()) and not so["exclude_defaults"]:
                 # a tuple / deque where the annotation is Sequence / Collection: same output as the list, whatever the options
                 v = revalue(t, v0, rnd)
             n += 1
